@@ -207,7 +207,7 @@ NonPositive = adjective_condition(lambda v: v <= 0, 'non-positive')
 """`Condition` indicating value must be non-positive"""
 NonNegative = adjective_condition(lambda v: v >= 0, 'non-negative')
 """`Condition` indicating value must be non-negative"""
-Finite = adjective_condition(math.isfinite, 'finite')
+Finite = adjective_condition(lambda v: isinstance(v, int) or math.isfinite(v), 'finite')  # (isfinite() overflows on a huge int)
 """`Condition` indicating value must be finite"""
 Empty = adjective_condition(lambda v: len(v) == 0, 'empty')
 """`Condition` indicating value must be empty (have no elements)"""
